@@ -146,6 +146,13 @@ class Callable_:
         raise Unsupported(f'call of {type(self).__name__}')
 
 
+class CoroutineObj:
+    """the coroutine object created by calling a nested `async def` (units with coroutines_are_objects = True)"""
+
+    def __init__(self, clo, args, kwargs):
+        self.clo, self.args, self.kwargs = clo, args, kwargs
+
+
 class Closure(Callable_):
     """A nested def / lambda of the function under verification, inlined at its call sites."""
 
@@ -248,7 +255,7 @@ def box(ex, v):
         return v.val
     if isinstance(v, KwPack) and not v.known:
         return v.val
-    if isinstance(v, (Callable_, ExcClass, BoundMethod, Module, KwPack, DictVal)):
+    if isinstance(v, (Callable_, ExcClass, BoundMethod, Module, KwPack, DictVal, CoroutineObj)):
         # python-level handle: give it an identity
         for k, o in ex.objs.items():
             if o is v:
@@ -447,6 +454,8 @@ class Exec:
         hook = getattr(self.unit, 'on_await', None)
 
         def f(s, v):
+            if isinstance(v, CoroutineObj):
+                return self.inline(s, v.clo, v.args, v.kwargs, e)
             if isinstance(v, Awaitable_):
                 return v.await_(self, s, e)
             if hook:
@@ -941,6 +950,9 @@ class Exec:
         if isinstance(target, SeqMethod):
             return target.call(self, st, args, kwargs, node)
         if isinstance(target, Closure):
+            if isinstance(target.node, ast.AsyncFunctionDef) and getattr(self.unit, 'coroutines_are_objects', False):
+                # calling an `async def` only creates the coroutine: its body runs when awaited / when the loop runs it (the unit's models decide)
+                return [('ok', st, CoroutineObj(target, list(args), dict(kwargs)))]
             return self.inline(st, target, args, kwargs, node)
         if isinstance(target, Callable_):
             return target.invoke(self, st, args, kwargs, node)
